@@ -21,6 +21,10 @@ VI_ITEMS = {
     "reg": [b'"ayw', b'"ap', b"yw", b"p", b"P"], "undo": [b"u"], "utf8": ["ié\x1bl".encode(), "a中\x1bh".encode()], "arrow": [b"\x1b[D", b"\x1b[C"],
     "uarg": ["r中".encode(), "ré".encode(), "f中".encode(), "té".encode(), "i中é\x1b0f中".encode()],
 }
+# keyboard macros recorded and replayed inside the script (the recorder looks at the key stack between reads)
+EMACS_ITEMS["rec"] = [b"\x18(" + a + b + b"\x18)" + c + b"\x18e" for a in (b"\x1bb", b"\x1b[D", b"\x18\x18", b"\x1bd", b"\x11x", b"\x1b2a") for b in (b"X", b"", b"\x1bf")
+                      for c in (b"", b"\x05")]
+VI_ITEMS["rec"] = [b"qa" + a + b + b"q" + c + b"@a" for a in (b"x", b"fa", b"dw", b"iZ\x1bl", b"rz", b"2l") for b in (b"", b"~", b"l") for c in (b"", b"0")]
 INPUTRC = "set convert-meta off\nset input-meta on\nset output-meta on\n\"\\C-o\": \"xy \"\n"
 
 
@@ -115,6 +119,16 @@ def run(rep, tier, seed):
             offs = []
             cases.append(mk_case(cid, mode, acts, hold=True))
             meta[cid] = {"sid": si, "mode": mode, "bytes": bs.hex(), "report_at": i, "offs": offs, "kind": "report"}
+            if i >= 1:
+                # second form: everything before the cut is read and redisplayed normally, its LAST byte alone in a read of its
+                # own; the rest arrives with the report of the redisplay that follows that byte (e.g. ESC, then `b` + report)
+                cid2 = "s%d.q%d" % (si, i)
+                acts2 = ([keys(bs[:i - 1])] if i > 1 else []) + [{"k": "gate"}, {"k": "hold"}, keys(bs[i - 1:i]),
+                                                               {"k": "sharedread", "h": bs[i:].hex(), "s": "unhold"}]
+                if i == 1 or splits_ok(bs, [i - 1], vi):
+                    cases.append(mk_case(cid2, mode, acts2, hold=False))
+                    meta[cid2] = {"sid": si, "mode": mode, "bytes": bs.hex(), "report_at": i, "report_form": "last-byte-alone", "offs": [], "kind": "report",
+                                  "cuts": ([i - 1] if i > 1 else []) + [i]}
     log("C05: %d scripts, %d runs" % (len(scripts), len(cases)))
     by = run_harness("session", cases, os.path.join(wd, "run"))
     per_script = {}
@@ -180,7 +194,7 @@ def run(rep, tier, seed):
                       {"kind": "chunk", "case": cmap.get(raw.get("cid"), {}), "reference_case": cmap.get(first[1].get("cid"), {}),
                        "meta": m, "rejected_line": ln, "raw_event": {k: v for k, v in raw.items() if k not in ("meta",)}})
     rep.rule = ("key scripts of 1..4 items from {printable, UTF-8 2/3/4-byte, arrow keys, ESC- and C-x-prefixed commands, digit arguments, "
-                "argument readers + argument, control keys, macro binding, completion; vi: insert groups, motions, find, delete, change, "
+                "argument readers + argument, control keys, macro binding, completion, a keyboard macro recorded and replayed; vi: insert groups, motions, find, delete, change, "
                 "registers, undo} + Enter; every chunking for scripts <= 8 bytes (all 2^(n-1)), else per-byte, paste and %d seeded ones; plus "
                 "delivery of the bytes after a position together with a cursor position report; in Vi modes no read ends directly after ESC; "
                 "non-trivial = distinct (script, chunking / report position) with at least one cut" % nrandom)
